@@ -2,6 +2,8 @@ import TbbVerif.Core.Proto
 import TbbVerif.Model.C16
 import TbbVerif.Model.C16Iso
 import TbbVerif.Model.C16Mand
+import TbbVerif.Model.C16Nest
+import TbbVerif.Model.C16Life
 
 open TbbVerif TbbVerif.C16 TbbVerif.Proto
 
@@ -481,6 +483,333 @@ def drive (d : ID) (ws : List String) : ID × String :=
 
 end IsoDrv
 
+
+/-! ### `c16nest`: the puppet protocol of harness/c16/rt.cpp (`rt nest`): nested real `isolate_within_arena` calls, `nested_arena_context`,
+resume stream, critical displacement, bypass, extra dispatchers -/
+
+namespace NestDrv
+open TbbVerif.C16.Nest TbbVerif.Generated.C16
+open TbbVerif.C16.Iso (Task PEntry Entry argFifo)
+
+structure ND where
+  n : Nat := 0
+  st : NSt := NSt.init 0
+  realStack : List Nat := []       -- dispatchers of the open REAL isolate_within_arena calls, innermost first (one OS stack)
+
+def showEntry : Option Entry → String
+  | none => "-"
+  | some (.plain x) => s!"t{x.id}"
+  | some (.proxy p) => s!"p{p.pid}"
+
+def sortNat (l : List Nat) : List Nat := (l.toArray.qsort (· < ·)).toList
+
+def dump (s : NSt) : String :=
+  "pools " ++ " ".intercalate (s.pools.map (fun p => "[" ++ " ".intercalate (p.map showEntry) ++ "]")) ++
+  " mail " ++ " ".intercalate (s.mail.map (fun b => "[" ++ " ".intercalate (b.map (fun p => s!"p{p.pid}")) ++ "]")) ++
+  " fifo {" ++ " ".intercalate ((sortNat (s.fifo.map (·.id))).map toString) ++ "}" ++
+  " crit {" ++ " ".intercalate ((sortNat (s.crit.map (·.id))).map toString) ++ "}" ++
+  " resume {" ++ " ".intercalate ((sortNat s.resume).map toString) ++ "}" ++
+  " idle " ++ " ".intercalate (s.idle.map (fun b => if b then "1" else "0")) ++
+  " ed " ++ " ".intercalate (s.disps.map (fun d => toString d.ed)) ++
+  " cur " ++ " ".intercalate (s.cur.map toString)
+
+def edOf (s : NSt) (t : Nat) : Nat := match s.dispOf t with | some (_, dp) => dp.ed | none => 0
+
+def took (s s' : NSt) (t : Nat) : Option String :=
+  if s'.log.length > s.log.length then
+    match s'.log.getLast? with
+    | some e => some s!"got {e.task.id} ed {edOf s' t}"
+    | none => some "got ?"
+  else none
+
+def idxOfId (l : List Nat) (id : Int) : List Nat :=
+  match (List.range l.length).filter (fun k => match l[k]? with | some x => Int.ofNat x == id | none => false) with
+  | [] => List.range l.length
+  | ks => ks
+
+def tryPop (s : NSt) (t : Nat) (mk : Nat → NOp) : List Nat → NSt × Option String
+  | [] => (s, none)
+  | k :: ks =>
+    let s' := s.step (mk k)
+    match took s s' t with
+    | some r => (s', some r)
+    | none => tryPop s t mk ks
+
+def curLoopOf (s : NSt) (t : Nat) : Option (Nat × Nat × List Fr) := (s.dispOf t).bind (fun p => p.2.curLoop)
+
+/-- one pass of `receive_or_steal_task` with `critical_allowed = false`, in the coded order: mailbox, resume stream, fifo stream, steal -/
+def idlePass (s : NSt) (t v : Nat) (fa : Bool) (hint : Int) (i : Nat) : NSt × String :=
+  let s0 := s.step (.setIdle t true)
+  let (s1, r1) :=
+    if (s0.mail.getD t []).isEmpty then (s0, none)
+    else
+      let s' := s0.step (.mailbox t)
+      match took s0 s' t with
+      | some r => (s', some r)
+      | none =>
+        let iso1 := isoArgMail1 (isoArgIdle i)
+        if iso1 != 0 && !(s'.mail.getD t []).isEmpty && s'.idle.getD t false then (s'.step (.setIdle t false), none) else (s', none)
+  let (s2, r2) := match r1 with
+    | some r => (s1, some r)
+    | none => if s1.resume.isEmpty then (s1, none) else tryPop s1 t (fun k => .popResume t k) (idxOfId s1.resume hint)
+  let (s3, r3) := match r2 with
+    | some r => (s2, some r)
+    | none =>
+      if isoFifoOk fa (argFifo i) && !s2.fifo.isEmpty then tryPop s2 t (fun k => .popFifo t fa k) (idxOfId (s2.fifo.map (fun (x : Task) => x.id)) hint)
+      else (s2, none)
+  let (s4, r4) := match r3 with
+    | some r => (s3, some r)
+    | none =>
+      let s' := s3.step (.steal t v)
+      (s', took s3 s' t)
+  let s5 := if s4.idle.getD t false then s4.step (.setIdle t false) else s4
+  (s5, r4.getD "none")
+
+/-- candidates for the critical task that displaces a held task: the hinted one first, then every one the loop may take -/
+def critCands (s : NSt) (i : Nat) (hint : Int) : List Nat :=
+  let all := (List.range s.crit.length).filter (fun k => critTakes s i k)
+  let hinted := all.filter (fun k => match s.crit[k]? with | some x => (x.id : Int) == hint | none => false)
+  hinted ++ all.filter (fun k => !hinted.contains k)
+
+def topIsRegion (s : NSt) (t : Nat) : Bool :=
+  match s.dispOf t with
+  | some (_, dp) => (match dp.stack with | .region .. :: _ => true | _ => false)
+  | none => false
+
+def drive (d : ND) (ws : List String) : ND × String :=
+  let s := d.st
+  match ws with
+  | ["cfg", n] =>
+    match nat? n with
+    | some n => if d.n == 0 && 2 ≤ n && n ≤ 8 then ({ n := n, st := NSt.init n }, "ok") else (d, "bad-op")
+    | none => (d, "bad-op")
+  | ["check"] => if d.n == 0 then (d, "bad-op") else (d, dump s)
+  | ["newdisp"] => if d.n == 0 then (d, "bad-op") else ({ d with st := s.step .newDisp }, s!"ok disp {s.disps.length}")
+  | op :: t :: rest =>
+    match nat? t with
+    | none => (d, "bad-op")
+    | some t =>
+      if t ≥ d.n then (d, "bad-op") else
+      match s.dispOf t with
+      | none => (d, "bad-op")
+      | some (dd, dp) =>
+      let ok (s' : NSt) : ND × String := ({ d with st := s' }, "ok")
+      let okEd (d' : ND) : ND × String := (d', s!"ok ed {edOf d'.st t}")
+      let spawned (s' : NSt) : ND × String :=
+        match s'.spawned.getLast? with
+        | some x =>
+          let ptag := match (s'.pools.getD t []).getLast? with
+            | some (some (.proxy p)) => if p.task.id == x.id then s!" ptag {p.ptag}" else ""
+            | _ => ""
+          ({ d with st := s' }, s!"task {x.id} tag {x.tag}{ptag}")
+        | none => (d, "bad-op")
+      match op, rest with
+      | "wait", [] => ok (s.step (.wait t))
+      | "endwait", [] => (match dp.stack with | .loop .. :: _ => ok (s.step (.endWait t)) | _ => (d, "bad-op"))
+      | "iso", [x, f] =>
+        (match nat? x, nat? f with
+         | some x, some f =>
+           -- the implementation reports the tag it installed; the model must accept it (environment assumption `tagFree`)
+           let s' := s.step (.isolate t x f)
+           if topIsRegion s' t && s'.tagOf.length > s.tagOf.length then ({ d with st := s', realStack := dd :: d.realStack }, s!"ok tag {edOf s' t}")
+           else (d, s!"rejected: tag {if x != 0 then x else f} is live or zero")
+         | _, _ => (d, "bad-op"))
+      | "endiso", [] | "throwiso", [] =>
+        (match d.realStack, dp.stack with
+         | top :: restStack, .region .. :: _ =>
+           if top == dd then okEd { d with st := s.step (.endIsolate t (op == "throwiso")), realStack := restStack } else (d, "bad-op")
+         | _, _ => (d, "bad-op"))
+      | "exec", [] => okEd { d with st := s.step (.execBegin t), realStack := dd :: d.realStack }
+      | "endexec", [] =>
+        (match d.realStack, dp.stack with
+         | top :: restStack, .exec .. :: _ =>
+           if top == dd then okEd { d with st := s.step (.execEnd t), realStack := restStack } else (d, "bad-op")
+         | _, _ => (d, "bad-op"))
+      | "attach", [d2] =>
+        (match nat? d2 with
+         | some d2 => if d2 < s.disps.length then okEd { d with st := s.step (.attach t d2) } else (d, "bad-op")
+         | none => (d, "bad-op"))
+      | "spawn", [] => spawned (s.step (.spawn t))
+      | "spawna", [dst] => (match nat? dst with | some dst => spawned (s.step (.spawnAff t dst)) | none => (d, "bad-op"))
+      | "enq", [] => spawned (s.step (.enqueue t))
+      | "crit", [] => spawned (s.step (.critical t))
+      | "resreq", [id] => (match nat? id with | some id => ({ d with st := s.step (.resumeReq id) }, s!"task {id}") | none => (d, "bad-op"))
+      | "setidle", [b] => (match nat? b with | some b => ok (s.step (.setIdle t (b != 0))) | none => (d, "bad-op"))
+      | "own", [] =>
+        (match curLoopOf s t with
+         | some _ => let s' := s.step (.own t); ({ d with st := s' }, (took s s' t).getD "none")
+         | none => (d, "bad-op"))
+      | "idle", [v, fa, hint] =>
+        (match nat? v, nat? fa, int? hint, curLoopOf s t with
+         | some v, some fa, some hint, some (i, _) =>
+           if v ≥ d.n || v == t then (d, "bad-op") else
+           let r := idlePass s t v (fa != 0) hint i
+           ({ d with st := r.1 }, r.2)
+         | _, _, _, _ => (d, "bad-op"))
+      | "critget", [hint] =>
+        (match int? hint, curLoopOf s t with
+         | some hint, some _ =>
+           let r := tryPop s t (fun k => .popCrit t k) (idxOfId (s.crit.map (fun (x : Task) => x.id)) hint)
+           ({ d with st := r.1 }, r.2.getD "none")
+         | _, _ => (d, "bad-op"))
+      | "stealc", [v, hint] =>
+        -- steal_or_get_critical with critical_allowed = true
+        (match nat? v, int? hint, curLoopOf s t with
+         | some v, some hint, some (i, _) =>
+           if v ≥ d.n || v == t then (d, "bad-op") else
+           let r := tryPop s t (fun k => .stealCrit t v k) (critCands s i hint)
+           match r.2 with
+           | some x => ({ d with st := r.1 }, x)
+           | none => let s' := s.step (.steal t v); ({ d with st := s' }, (took s s' t).getD "none")
+         | _, _, _ => (d, "bad-op"))
+      | "bypass", [hint] =>
+        -- get_critical_task(t = a fresh task, ..) with critical_allowed = true
+        (match int? hint, curLoopOf s t with
+         | some hint, some (i, _) =>
+           if dp.runsResume then (d, "bad-op") else
+           let r := tryPop s t (fun k => .bypass t (some k)) (critCands s i hint)
+           match r.2 with
+           | some x => ({ d with st := r.1 }, x)
+           | none => let s' := s.step (.bypass t none); ({ d with st := s' }, (took s s' t).getD "none")
+         | _, _ => (d, "bad-op"))
+      | _, _ => (d, "bad-op")
+  | _ => (d, "bad-op")
+
+end NestDrv
+
+
+/-! ### `c16life`: validation of the life-cycle accesses logged by whole-runtime runs (harness/c16/rt.cpp, RT_LIFE=1) against `Model/C16Life.lean`
+lines:  threads T | new k ns rs refs allot limit | ev k tid kind var order a b ok        answers: ok … | skip | reject … -/
+
+namespace LifeDrv
+open TbbVerif.C16.Life
+
+structure AR where
+  cfg : SCfg
+  st : LSt
+  live : Bool := true
+
+structure LD where
+  nScript : Nat := 1
+  arenas : List (Nat × AR) := []
+
+def maxThreads : Nat := 64
+
+def orderRank (o : String) : Nat :=
+  if o == "rlx" then 0 else if o == "cns" || o == "acq" || o == "rel" then 1 else if o == "acqrel" then 2 else 3
+
+/-- the model's access equals the observed one (the implementation's memory order may be stronger) -/
+def evMatch (m : Ev) (kind var order : String) (a b ok : Nat) : Bool :=
+  m.kind == kind && m.var == var && m.a == a && m.b == b && m.ok == ok && (m.order == order || orderRank order > orderRank m.order)
+
+def setHint (s : LSt) (cfg : SCfg) (t : Nat) (var : String) : LSt :=
+  match s.ths[t]? with
+  | some th =>
+    let pc0 := match th.sth.pc with | .idle => enterStart cfg th.sth.worker | pc => pc
+    let hint := match pc0, C16Drv.occIndex var with
+      | .rangeBegin lo _, some i => i - lo
+      | _, _ => 0
+    let needs := match th.sth.pc with | .idle => true | .rangeBegin _ _ => true | _ => false
+    if needs then setTh s t { th with sth := { th.sth with hints := [hint] } } else s
+  | none => s
+
+/-- apply `ops` in order; the LAST one must produce the observed access -/
+def tryOps (cfg : SCfg) (s : LSt) (ops : List LOp) (kind var order : String) (a b ok : Nat) : Option LSt :=
+  match ops with
+  | [] => none
+  | [o] =>
+    let r := s.step cfg o
+    match r.2 with
+    | some e => if evMatch e kind var order a b ok then some r.1 else none
+    | none => none
+  | o :: rest => tryOps cfg (s.step cfg o).1 rest kind var order a b ok
+
+def firstSome (cfg : SCfg) (s : LSt) (cands : List (List LOp)) (kind var order : String) (a b ok : Nat) : Option LSt :=
+  match cands with
+  | [] => none
+  | c :: cs => match tryOps cfg s c kind var order a b ok with
+    | some s' => some s'
+    | none => firstSome cfg s cs kind var order a b ok
+
+def mirror (s : LSt) (var : String) : Option Nat :=
+  if var == "refs" then some s.refs
+  else if var == "allot" then some s.allot
+  else if var == "limit" then some s.limit
+  else match C16Drv.occIndex var with
+    | some i => some (b2n (s.occ.getD i false))
+    | none => none
+
+def showPc (th : LTh) : String := reprStr th.pc
+
+def validate (ar : AR) (t : Nat) (kind var order : String) (a b ok : Nat) : AR × String :=
+  let cfg := ar.cfg
+  let s0 := ar.st
+  match s0.ths[t]? with
+  | none => (ar, s!"reject thread id {t} out of range")
+  | some th =>
+    let s := setHint s0 cfg t var
+    -- candidate operation sequences of thread t / of the environment that could produce this access
+    let own : List (List LOp) := [[.th t], [.begin_ t], [.poll t], [.exit_ t, .th t], [.abandon t, .begin_ t]]
+    let env : List (List LOp) :=
+      if var == "allot" && kind == "store" then [[.setAllot a]]
+      else if var == "refs" && kind == "fadd" && b == a + 1 then [[.extRef true]]
+      else if var == "refs" && kind == "fsub" && b + 1 == a then [[.extRef false]]
+      else if var == "refs" && kind == "fadd" && b == a + refWorker && !th.sth.worker then [[.resumeRef true]]
+      else if var == "refs" && kind == "fsub" && b + refWorker == a && !th.sth.worker then [[.resumeRef false]]
+      else []
+    match firstSome cfg s (own ++ env) kind var order a b ok with
+    | some s' => ({ ar with st := s' }, "ok")
+    | none =>
+      if kind == "load" then
+        -- a read outside the protocol (thieves read my_limit, destruction reads my_references, …): it must see the model's value
+        match mirror s0 var with
+        | some v =>
+          if v == a then
+            -- a probe that was interrupted: the thread starts over
+            let s1 := match th.pc with | .joinAllot _ => setTh s0 t { th with pc := .out } | _ => s0
+            ({ ar with st := s1 }, "ok env-load")
+          else (ar, s!"reject thread {t} ({showPc th}) read {var} = {a}, the model has {v}")
+        | none => (ar, "reject unknown variable")
+      else
+        (ar, s!"reject thread {t} (worker={th.sth.worker}, pc {showPc th}, recalled={th.recalled}, holdsRef={th.holdsRef}) performs `{kind} {var} {order} {a} {b} {ok}`: " ++
+             s!"no enabled step of the life-cycle model produces it (model: refs={s0.refs} allot={s0.allot} limit={s0.limit} occ={C16Drv.showNatsC (s0.occ.map b2n)})")
+
+def drive (d : LD) (ws : List String) : LD × String :=
+  match ws with
+  | ["threads", n] => (match nat? n with | some n => ({ d with nScript := n }, "ok") | none => (d, "bad-op"))
+  | ["new", k, ns, rs, refs, allot, limit] =>
+    match nat? k, nat? ns, nat? rs, nat? refs, nat? allot, nat? limit with
+    | some k, some ns, some rs, some refs, some allot, some limit =>
+      let cfg : SCfg := { numSlots := ns, reserved := rs }
+      let threads := (List.range maxThreads).map (fun t => (decide (t ≥ d.nScript), [0]))
+      let st0 := LSt.init cfg threads (refs % refWorker)
+      let st : LSt := { st0 with refsW := refs / refWorker, transient := refs / refWorker, allot := allot, limit := limit }
+      ({ d with arenas := (k, { cfg := cfg, st := st }) :: d.arenas.filter (fun p => p.1 != k) }, "ok")
+    | _, _, _, _, _, _ => (d, "bad-op")
+  | ["ev", k, t, kind, var, order, a, b, ok] =>
+    match nat? k, nat? t, nat? a, nat? b, nat? ok with
+    | some k, some t, some a, some b, some ok =>
+      match d.arenas.lookup k with
+      | none => (d, "skip")
+      | some ar =>
+        if !ar.live then (d, "skip")
+        else if var == "refs" && kind == "store" then
+          -- the constructor of another arena object in this memory: the registered arena is gone
+          ({ d with arenas := (k, { ar with live := false }) :: d.arenas.filter (fun p => p.1 != k) }, "skip")
+        else
+          let r := validate ar t kind var order a b ok
+          ({ d with arenas := (k, r.1) :: d.arenas.filter (fun p => p.1 != k) }, r.2)
+    | _, _, _, _, _ => (d, "bad-op")
+  | ["state", k] =>
+    match nat? k with
+    | some k => (match d.arenas.lookup k with
+      | some ar => (d, s!"refsE={ar.st.refsE} refsW={ar.st.refsW} holders={ar.st.holders} transient={ar.st.transient} inside={ar.st.inside} workersInside={ar.st.workersInside} allot={ar.st.allot}")
+      | none => (d, "none"))
+    | none => (d, "bad-op")
+  | _ => (d, "bad-op")
+
+end LifeDrv
+
 def drivers : List (String × Proto.Driver) := [
   ("c16", Proto.pureDriver C16Drv.drive),
   ("c16m", { σ := World, init := World.init 0, step := C16Drv.driveWorld }),
@@ -488,7 +817,9 @@ def drivers : List (String × Proto.Driver) := [
   ("c16slots", { σ := C16Drv.SD, init := {}, step := C16Drv.driveSlots }),
   ("c16pend", { σ := C16Drv.PD, init := {}, step := C16Drv.drivePend }),
   ("c16mand", { σ := MandDrv.MD, init := {}, step := MandDrv.drive }),
-  ("c16iso", { σ := IsoDrv.ID, init := {}, step := IsoDrv.drive })
+  ("c16iso", { σ := IsoDrv.ID, init := {}, step := IsoDrv.drive }),
+  ("c16nest", { σ := NestDrv.ND, init := {}, step := NestDrv.drive }),
+  ("c16life", { σ := LifeDrv.LD, init := {}, step := LifeDrv.drive })
 ]
 
 def main (args : List String) : IO UInt32 := Proto.mainOf drivers args
